@@ -83,6 +83,31 @@ pub fn panic_fault_fired() -> bool {
     FAULT_FIRED.with(|c| c.get())
 }
 
+/// FAULT: an injected panic. Every other one (odd marker) is raised INSIDE the closure passed to
+/// `UnsafeCell::with`, with a guard created before it that writes the same cell while the panic
+/// unwinds (a reset-on-exit guard): the cell's bookkeeping has to survive the unwinding of its own
+/// access. The cell is private to the operation, so no race is involved and the expected result of
+/// the model run is the same as for a plain panic.
+fn raise_injected_panic(marker: u32) -> ! {
+    if marker % 2 == 1 {
+        struct Reset<'a>(&'a loom::cell::UnsafeCell<u64>);
+        impl Drop for Reset<'_> {
+            fn drop(&mut self) {
+                self.0.with_mut(|_| ());
+            }
+        }
+        let cell = loom::cell::UnsafeCell::new(0u64);
+        let _g = Reset(&cell);
+        PANIC_IN_CELL_FIRED.with(|c| c.set(c.get() + 1));
+        cell.with(|_| panic!("VERIF-PANIC-{}", marker));
+    }
+    panic!("VERIF-PANIC-{}", marker);
+}
+thread_local! {
+    /// probe: panics raised inside an `UnsafeCell::with` closure
+    pub static PANIC_IN_CELL_FIRED: std::cell::Cell<u64> = std::cell::Cell::new(0);
+}
+
 fn maybe_inject(tid: u8, pc: usize) {
     if let Some(f) = FAULT.with(|c| c.get()) {
         if f.tid == tid && f.pc as usize == pc {
@@ -92,7 +117,7 @@ fn maybe_inject(tid: u8, pc: usize) {
             });
             if n == f.hit {
                 FAULT_FIRED.with(|c| c.set(true));
-                panic!("VERIF-PANIC-{}", f.marker);
+                raise_injected_panic(f.marker);
             }
         }
     }
@@ -1144,9 +1169,7 @@ fn exec(cx: &mut Ctx, op: &Op, pc: usize) -> Option<u64> {
             CAUGHT_FIRED.with(|c| c.set(c.get() + 1));
             res
         }
-        Op::Panic { marker } => {
-            panic!("VERIF-PANIC-{}", marker);
-        }
+        Op::Panic { marker } => raise_injected_panic(marker),
         Op::Crash => {
             std::process::exit(77);
         }
